@@ -375,6 +375,11 @@ func RunWorker(p *Prop, ph *Phase, c *Ctx, start int, only int) int {
 		} else if i%c.NShards != c.Shard {
 			continue
 		}
+		if c.Violations() > 40 && only < 0 {
+			// the tree is clearly broken for this property; the witnesses are on disk, do not grind through the rest
+			c.Add("cases_skipped_after_many_violations", 1)
+			continue
+		}
 		c.Case = i
 		c.Rng = rand.New(rand.NewSource(CaseSeed(c.Seed, ph.Name, i)))
 		fmt.Fprintf(c.progF, "B %d\n", i)
